@@ -13,9 +13,10 @@ PLANS = {
     "C02": {"quick": [("core", 3, ["Preserve", "Scoped"])],
             "thorough": [("core", 3, ["Preserve", "Scoped"]), ("beta", 3, ["Preserve", "Scoped"]),
                          ("fuse", 3, ["Preserve", "Scoped"]), ("fuse1", 3, ["Preserve", "Scoped"]),
-                         ("fused", 3, ["Preserve", "Scoped"])]},
+                         ("fused", 3, ["Preserve", "Scoped"]), ("betav", 2, ["Preserve", "Scoped"]),
+                         ("betads", 4, ["Preserve", "Scoped"]), ("betaw", 3, ["Preserve", "Scoped"])]},
     "C14": {"quick": [("chain1", 4, ["NormalFormShape", "Preserve"])],
-            "thorough": [("chain1", 4, ["NormalFormShape", "Preserve"])]},
+            "thorough": [("chain1", 4, ["NormalFormShape", "Preserve"]), ("chainf", 4, ["NormalFormShape", "Preserve"])]},
     "C18": {"quick": [("idx", 3, ["WellFormedAlways", "Bounded", "Preserve"])],
             "thorough": [("idx", 3, ["WellFormedAlways", "Bounded", "Preserve"]),
                          ("expr", 3, ["WellFormedAlways", "Bounded"])]},
